@@ -8,6 +8,9 @@ CONSTANTS
   ChunkMax = 3
   Parts <- Both
   Interleave = FALSE
+  BodySizes = {}
+  MaxArrive = 0
+  RepeatGuard = TRUE
   CheckDigest = TRUE
 VIEW mcView
 INVARIANTS TypeOK FwdOwnDigest SyncerOwnDigest KeptOwnDigest CacheOnlyLegit
